@@ -367,6 +367,20 @@ def check(case):
                 last = cls[spec["type"]].autoload(os.path.join(tmp, f"ms{fj}", "ep2.pt"), gpu=False)
                 require(same_params(params_of(state), params_of(last)), "model_saver:parameters", "last periodic save does not reload to the final parameters")
                 labels.add("model_saver")
+                if op["seed"] % 4 == 0:
+                    # long time axis: a (resumed) run whose epoch NUMBERS lie beyond 256, period 3: a file for every due epoch, the last one
+                    # reloading to the final parameters
+                    ms2 = ModelSaver(3, os.path.join(tmp, f"ms{fj}_late"), "ep{}.pt", save_initial=False, metadata=md)
+                    guard, div = gen.divergence_guard()
+                    state.fit(data, epochs=270, starting_epoch=255, pos_batch_size=2, lr=0.01, callbacks=[ms2, guard], **kw)
+                    if div[0]:
+                        return {"nontrivial": False, "excluded": 1, "labels": ["diverged"]}
+                    got2 = sorted(os.listdir(os.path.join(tmp, f"ms{fj}_late")))
+                    require(got2 == sorted(f"ep{e_}.pt" for e_ in range(255, 271) if e_ % 3 == 0), "model_saver:files", f"ModelSaver(period 3) over epochs 255..270 wrote {got2}")
+                    last2 = cls[spec["type"]].autoload(os.path.join(tmp, f"ms{fj}_late", "ep270.pt"), gpu=False)
+                    require(same_params(params_of(state), params_of(last2)), "model_saver:parameters", "the save of epoch 270 does not reload to the final parameters")
+                    require(meta_eq(md, before_md), "save:mutates-metadata", "periodic model saving modified the metadata object")
+                    labels.add("model_saver_epochs_beyond_256")
                 if has_ud and md:
                     nt = True
     return {"nontrivial": nt, "labels": sorted(labels) + [f"types={'+'.join(sorted({m['type'] for m in case['models']}))}"]}
